@@ -137,7 +137,11 @@ class Ctx:
         self.quick = tier == "quick"
 
     def n(self, quick, thorough):
-        return min(max(quick, thorough), quick * self.boost) if self.quick else thorough
+        if not self.quick:
+            return thorough
+        if self.boost <= 1 or quick >= 20000:      # extra-search budgets are large already: not multiplied again
+            return quick
+        return max(quick, min(quick * self.boost, 20000, max(quick, thorough)))
 
     def sub_rng(self, tag):
         return random.Random("%s/%d/%s" % (self.pid, self.seed, tag))
